@@ -7,5 +7,6 @@ if ! git -C /repo diff --quiet; then echo "refusing: /repo has uncommitted chang
 git -C /repo apply "$patch" || { echo "patch does not apply"; exit 2; }
 ( cd /verif && "$@" ); rc=$?
 git -C /repo checkout -- .
+( cd /verif && ./check build >/dev/null 2>&1 )
 echo "[with_patch] command exit code: $rc"
 exit $rc
